@@ -6,7 +6,8 @@ EXTENDS OAuth, Json
 CodeGuarded == {"iss", "sub", "exp", "iat", "active", "client_id", "scope"}
 \* every defect flag of the vp_token-bearer grant (C02: the quantifier's list + DPoP)
 AllS2SDefects == {"aud", "validity", "nodates", "nononce", "signer", "mixed", "unfulfilled", "foreigndef", "forgedmap",
-                  "partial", "vpsig", "vcsig", "revoked", "expired", "stale", "scope", "baddpop"}
+                  "partial", "vpsig", "vcsig", "revoked", "expired", "stale", "scope", "multiscope", "baddpop"}
+AllAuthDefects == {"scope", "multiscope"}
 AllRespDefects == {"state", "tenant", "nononce", "badnonce", "signer", "mixed", "aud", "vpsig", "vcsig", "revoked",
                    "expired", "stale", "foreigndef", "unfulfilled", "forgedmap"}
 AllTokDefects == {"nocode", "code", "client", "verifier", "baddpop"}
